@@ -490,6 +490,10 @@ func RenderFromAST(ast *MJMLNode, opts ...RenderOption) (string, error) {
 		}
 	}
 
+	// Load the document's own mj-attributes / mj-class definitions, exactly as RenderWithAST does;
+	// otherwise the result depends on whichever document was compiled before this call.
+	setGlobalAttributesFromAST(ast)
+
 	component, err := CreateComponent(ast, renderOpts)
 	if err != nil {
 		return "", err
@@ -515,7 +519,20 @@ func NewFromAST(ast *MJMLNode, opts ...RenderOption) (Component, error) {
 		opt(renderOpts)
 	}
 
+	setGlobalAttributesFromAST(ast)
+
 	return CreateComponent(ast, renderOpts)
+}
+
+// setGlobalAttributesFromAST initialises the global attribute store from the head of the given document.
+func setGlobalAttributesFromAST(ast *MJMLNode) {
+	globalAttrs := globals.NewGlobalAttributes()
+	if ast != nil {
+		if headNode := ast.FindFirstChild("mj-head"); headNode != nil {
+			globalAttrs.ProcessAttributesFromHead(headNode)
+		}
+	}
+	globals.SetGlobalAttributes(globalAttrs)
 }
 
 // normalizeGroupColumnClassOrder rewrites the mj-group column class ordering to match
